@@ -141,15 +141,17 @@ func (tests *Tests) WriteResults(config *config.Config, pipe stdio.Io) error {
 		}
 	}
 
-	defer func() {
-		tests.Results.results = make([]*TestResult, 0)
-	}()
+	// take the results to report and reset the list in one critical section
+	tests.Results.mutex.Lock()
+	results := tests.Results.results
+	tests.Results.results = make([]*TestResult, 0)
+	tests.Results.mutex.Unlock()
 
 	switch reportType.(string) {
 	case "json":
 		pipe.SetDataType(types.Json)
 
-		b, err := json.Marshal(tests.Results.results, pipe.IsTTY())
+		b, err := json.Marshal(results, pipe.IsTTY())
 		if err != nil {
 			return err
 		}
@@ -169,7 +171,7 @@ func (tests *Tests) WriteResults(config *config.Config, pipe stdio.Io) error {
 			reset = codes.Reset
 		}
 		termWidth := readline.GetTermWidth()
-		for _, r := range tests.Results.results {
+		for _, r := range results {
 			if !verbose.(bool) && (r.Status == TestMissed || r.Status == TestInfo) {
 				continue
 			}
@@ -212,7 +214,7 @@ func (tests *Tests) WriteResults(config *config.Config, pipe stdio.Io) error {
 		)
 		pipe.Writeln([]byte(s))
 
-		for _, r := range tests.Results.results {
+		for _, r := range results {
 			if !verbose.(bool) && (r.Status == TestMissed || r.Status == TestInfo) {
 				continue
 			}
